@@ -32,6 +32,19 @@ def random_text(rng, maxlen=40):
     return [rng.choices(pools, w)[0]() for _ in range(n)]
 
 
+def digit_texts(rng, n):
+    """Number-shaped texts: long digit runs, leading zeros, values around 2^32 (model decides valid/invalid)."""
+    out = []
+    for _ in range(n):
+        v = rng.choice([0, 1, 42, 4294967295, 4294967296, 4294967294, 99999999999, rng.randint(0, 2 ** 33), rng.randint(0, 2 ** 70)])
+        body = ("%x" if rng.random() < 0.4 else "%d") % v
+        pre = "0x" if body.strip("0123456789") or rng.random() < 0.3 else ""
+        t = pre + "0" * rng.choice([0, 0, 1, 2, 8, 9, 10, 11, 12, 30]) + body
+        t = rng.choice(["", " ", "a:=", "x"]) + t + rng.choice(["", " ", ";", "x", "g", "0x1"])
+        out.append([ord(c) for c in t])
+    return out
+
+
 def lookalike_texts():
     """every look-alike on its own, between / in front of / behind tokens, inside a comment and a character literal"""
     a, b = ord("a"), ord("b")
@@ -75,11 +88,21 @@ def gen_lexeme(rng, last):
         s = rng.choice(["0", "7", "00", "0012", "4294967295", "4294967294", "123456789", "10", "99", "042"])
         if rng.random() < 0.5:
             s = str(rng.randint(0, 4294967295))
+        if rng.random() < 0.3:
+            # digit+ is the lexical grammar: any number of leading zeros keeps the literal valid
+            s = "0" * rng.choice([1, 2, 9, 10, 11, 12, 20, 40]) + s
+            s = s[-rng.choice([len(s), 10, 11, 12, 32]):] if rng.random() < 0.5 else s
+            if int(s) > 4294967295:
+                s = "0" + s[1:]
+            if int(s) > 4294967295:
+                s = "0" * len(s)
         return ("Int", ("ok", int(s)), s)
     if r < 0.82:
         d = rng.choice(["0", "A", "a", "fF", "FFFFFFFF", "00000000001", "7f", "DEADbeef", "10"])
         if rng.random() < 0.5:
             d = "%x" % rng.randint(0, 4294967295)
+        if rng.random() < 0.3:
+            d = "0" * rng.choice([1, 2, 7, 8, 9, 10, 20]) + d
         return ("Hex", ("ok", int(d, 16)), "0x" + d)
     if r < 0.90:
         if rng.random() < 0.3:
